@@ -523,8 +523,9 @@ def imm_values(rnd, nrand=3):
     return sorted(vs)
 
 
-def spellings(v, rnd=None, all_=False):
-    """Textual spellings of an integer in AssemblyLine/nasm syntax."""
+def spellings(v, rnd=None, all_=False, wrap=False):
+    """Textual spellings of an integer in AssemblyLine/nasm syntax. wrap: also the NEGATED spellings of 2^64 - v (64-bit destinations
+    only): '-0xffffffff00000001' is 0xffffffff written with a sign and all 16 hex digits, '-18446744069414584321' its decimal twin."""
     mag = abs(v)
     sg = "-" if v < 0 else ""
     out = [("hex", sg + "0x%x" % mag), ("dec", sg + "%d" % mag)]
@@ -539,6 +540,14 @@ def spellings(v, rnd=None, all_=False):
     for width in (len(decd) + 1, 16, 18, 20, 24):  # decimals with leading zeros are decimals (nasm agrees), whatever their length
         if width > len(decd):
             out.append(("dec0", sg + decd.rjust(width, "0")))
+    if wrap and 0 < v < 2**64:
+        w_ = 2**64 - v
+        if w_ >= 2**60:
+            out.append(("hex16", "-0x%016x" % w_))
+            out.append(("hex16", "-0X%016X" % w_))
+        else:
+            out.append(("hex", "-0x%x" % w_))
+        out.append(("dec", "-%d" % w_))
     if all_ or rnd is None:
         return out
     return [out[0], out[1]] + ([rnd.choice(out[2:])] if len(out) > 2 else [])
